@@ -273,6 +273,67 @@ pub fn run(p: &[String]) -> Vec<String> {
                 None => vec![hex("<dropped>")],
             }
         }
+        // ---- C10
+        "store_step" => {
+            // op x y blank_has_format c0 r0 c1 r1 c2 r2 c3 r3 : same scenario through the public API, checked against a brute-force reference
+            use std::collections::BTreeMap;
+            let (op, x, y, fmt) = (unhex(&p[1]), u(&p[2]), u(&p[3]), b(&p[4]));
+            let pos: Vec<(u32, u32)> = (0..4).map(|i| (u(&p[5 + 2 * i]), u(&p[6 + 2 * i]))).collect();
+            let mut book = umya_spreadsheet::new_file();
+            let ws = book.get_sheet_by_name_mut("Sheet1").unwrap();
+            ws.get_cell_mut(pos[0]).set_value_bool(true);
+            ws.get_cell_mut(pos[1]).set_value_bool(false);
+            let with_third = p.len() < 14 || u(&p[13]) == 4;
+            if with_third { ws.get_cell_mut(pos[2]).set_value_string("x"); }
+            let c3 = ws.get_cell_mut(pos[3]);
+            if fmt { c3.get_style_mut().get_number_format_mut().set_format_code("0.00"); }
+            let mut reference: BTreeMap<(u32, u32), String> = BTreeMap::new();
+            reference.insert((pos[0].1, pos[0].0), "TRUE".into());
+            reference.insert((pos[1].1, pos[1].0), "FALSE".into());
+            if with_third { reference.insert((pos[2].1, pos[2].0), "x".into()); }
+            reference.insert((pos[3].1, pos[3].0), "".into());
+            let shift = |m: &BTreeMap<(u32, u32), String>, row: bool, ins: bool| -> BTreeMap<(u32, u32), String> {
+                let mut out = BTreeMap::new();
+                for ((r, c), v) in m.iter() {
+                    let k = if row { *r } else { *c };
+                    let nk = if ins { if k >= x { k + y } else { k } } else if k >= x && k < x + y { continue } else if k >= x + y { k - y } else { k };
+                    out.insert(if row { (nk, *c) } else { (*r, nk) }, v.clone());
+                }
+                out
+            };
+            match op.as_str() {
+                "get_cell_mut" => { ws.get_cell_mut((x, y)); reference.entry((y, x)).or_insert("".into()); }
+                "set_cell" => { let mut c = umya_spreadsheet::Cell::default(); c.get_coordinate_mut().set_col_num(x); c.get_coordinate_mut().set_row_num(y); c.set_value_bool(true); ws.set_cell(c); reference.insert((y, x), "TRUE".into()); }
+                "remove_cell" => { ws.remove_cell((x, y)); reference.remove(&(y, x)); }
+                "insert_new_row" => { ws.insert_new_row(&x, &y); reference = shift(&reference, true, true); }
+                "insert_new_column_by_index" => { ws.insert_new_column_by_index(&x, &y); reference = shift(&reference, false, true); }
+                "remove_row" => { ws.remove_row(&x, &y); reference = shift(&reference, true, false); }
+                "remove_column_by_index" => { ws.remove_column_by_index(&x, &y); reference = shift(&reference, false, false); }
+                "cleanup" => { ws.cleanup(); }
+                _ => panic!("op"),
+            }
+            let mut problems: Vec<String> = vec![];
+            let listed: Vec<(u32, u32, String)> = ws.get_cell_collection_sorted().iter().map(|c| (*c.get_coordinate().get_row_num(), *c.get_coordinate().get_col_num(), c.get_value().to_string())).collect();
+            if op != "cleanup" {
+                let want: Vec<(u32, u32, String)> = reference.iter().map(|((r, c), v)| (*r, *c, v.clone())).collect();
+                if listed != want { problems.push(format!("sorted listing {:?} expected {:?}", listed, want)); }
+            }
+            if ws.get_cell_collection().len() != listed.len() { problems.push("unsorted and sorted listing differ in length".into()); }
+            for w in listed.windows(2) { if (w[0].0, w[0].1) >= (w[1].0, w[1].1) { problems.push("sorted listing not strictly ascending".into()); } }
+            for (r, c, _) in &listed {
+                match ws.get_cell((*c, *r)) {
+                    Some(cell) => if (cell.get_coordinate().get_col_num(), cell.get_coordinate().get_row_num()) != (c, r) { problems.push(format!("cell found at ({},{}) reports another coordinate", c, r)); },
+                    None => problems.push(format!("listed cell ({},{}) not found by lookup", c, r)),
+                }
+                if ws.get_row_dimension(r).is_none() { problems.push(format!("row {} of an existing cell is unknown to the writer", r)); }
+                if ws.get_collection_by_row(r).len() != listed.iter().filter(|t| t.0 == *r).count() { problems.push(format!("by-row listing of row {} disagrees", r)); }
+                if ws.get_collection_by_column(c).len() != listed.iter().filter(|t| t.1 == *c).count() { problems.push(format!("by-column listing of column {} disagrees", c)); }
+            }
+            let hi = ws.get_highest_column_and_row();
+            let exp_hi = (listed.iter().map(|t| t.1).max().unwrap_or(0), listed.iter().map(|t| t.0).max().unwrap_or(0));
+            if hi != exp_hi { problems.push(format!("highest column/row {:?} expected {:?}", hi, exp_hi)); }
+            if problems.is_empty() { vec!["coherent".to_string()] } else { let mut v = vec!["incoherent".to_string()]; v.extend(problems.iter().map(|s| hex(s))); v }
+        }
         // ---- C13
         "fsize_save" => {
             // kind dir big : save into dir/out.<ext> (pre-existing with content "OLD"); the caller sets RLIMIT_FSIZE
